@@ -84,6 +84,33 @@ func NewEnv(opts EnvOptions) (*Env, error) {
 	return e, nil
 }
 
+// newEnvOn builds an Env over an existing database state (used to branch many schedules off one prefix).
+func newEnvOn(pg *pgmodel.DB, scale string, feat map[string]map[string]string) (*Env, error) {
+	e := &Env{PG: pg, Feat: feat}
+	if scale == "" {
+		scale = "1"
+	}
+	e.Scale = NewScale(scale)
+	e.now.Store(1)
+	pg.Clock = func() time.Time { return TimeOf(int(e.now.Load())) }
+	e.St = stack.Open(pg, stack.Options{})
+	if os.Getenv("VH_DEBUG") != "" {
+		pg.Observer = func(ev pgmodel.StmtEvent) {
+			if ev.Err != "" || os.Getenv("VH_DEBUG") == "2" {
+				fmt.Fprintf(os.Stderr, "SQL sess=%d worker=%s err=%s\n    %.300s\n", ev.Sess, ev.Worker, ev.Err, ev.SQL)
+			}
+		}
+	}
+	return e, nil
+}
+
+// execNoClock is Exec without touching the clock (concurrent requests share one instant).
+func (e *Env) execNoClock(ctx context.Context, worker string, op Op) Res {
+	saved := e.now.Load()
+	op.Now = int(saved)
+	return e.Exec(ctx, worker, op)
+}
+
 func (e *Env) Close() { e.St.Close() }
 
 func (e *Env) SetNow(u int) { e.now.Store(int64(u)) }
